@@ -152,8 +152,16 @@ ObsIn(kind, P, s, mode) ==
 ResumeOk(impl, kind, P, I, s) ==
     \A mode \in BOOLEAN : ObsIn(kind, P, Restore(impl, kind, I, s), mode) = ObsIn(kind, P, s, mode)
 
-\* state_dict keys: a buffer registered lazily by the first observer call (impl = "lazy_buffer") makes the key sets
-\* of a used and of a fresh wrapper differ
-KeysOf(impl, s) == {"params", "buffers"} \cup (IF impl = "lazy_buffer" /\ s.seen THEN {"lazy"} ELSE {})
-KeysOk(impl, kind, I, s) == KeysOf(impl, s) = KeysOf(impl, Fresh(kind, I))
+\* state_dict keys.  They may depend on the architecture and the constructor arguments only.
+\*  - a buffer registered lazily by the first observer call (impl = "lazy_buffer") makes the key sets of a used and of a
+\*    fresh wrapper differ;
+\*  - CONSTRUCTION INDEX: how many wrappers / calculators were constructed in the process before this one.  The wrapper
+\*    the checkpoint is resumed into is built later in the same process (index larger), after other wrappers, or first in
+\*    a fresh process (index 0): keys numbered by a process-global counter (impl = "global_counter") depend on it.
+MaxIdx == 2
+KeysOf(impl, s, idx) == {<<"params", 0>>, <<"buffers", 0>>}
+                        \cup (IF impl = "lazy_buffer" /\ s.seen THEN {<<"lazy", 0>>} ELSE {})
+                        \cup (IF impl = "global_counter" THEN {<<"cat", idx>>} ELSE {<<"cat", 0>>})
+KeysOk(impl, kind, I, s) ==
+    \A i, j \in 0..MaxIdx : KeysOf(impl, s, i) = KeysOf(impl, Fresh(kind, I), j)
 =============================================================================
